@@ -40,7 +40,7 @@ func inlineTypesSmall(p *Program) func(f *ssa.Function, d int) bool {
 func RuleAddr(r *Report, p *Program) {
 	r.Rule("AD1", "per role: text with a port is accepted iff the port is not forbidden and yields exactly the parsed address:port; text without a port gets the role's default port, or is rejected when the port is mandatory", 4)
 	r.Rule("AD2", "the port that String() omits is the parser's default port, and the default is not a forbidden port", 4)
-	r.Rule("AD0", "all parsing entry points of a role (Set, UnmarshalJSON) delegate to the role's parser", 8)
+	r.Rule("AD0", "all parsing entry points of a role (Set, UnmarshalJSON) delegate to the role's parser and, when they report success, have stored exactly what it returned", 16)
 	var spec RolesSpec
 	if err := loadJSON("/verif/spec/roles.json", &spec); err != nil {
 		r.Fatal("AD1", "roles.json", err.Error())
@@ -278,6 +278,49 @@ func RuleAddr(r *Report, p *Program) {
 				}
 			})
 			r.Check(calls, "AD0", role+":"+m, p.Pos(mf.Pos()), "calls "+rs.Parser, m+" does not go through "+rs.Parser)
+			// ... and what the parser returned is what the receiver holds when the method reports success: every path
+			// that returns a nil error has stored the parser's result through the receiver
+			if calls {
+				w := NewWalker(p)
+				w.LoopFuel = 5
+				w.Inline = inlineHelpers([]*ssa.Package{p.SSAPkg("types")}, func(f *ssa.Function) bool {
+					return f == fn || (f.Object() != nil && f.Object().Exported())
+				})
+				args := make([]*Term, len(mf.Params))
+				for i, prm := range mf.Params {
+					args[i] = &Term{Op: "param", Name: prm.Name(), Typ: prm.Type()}
+				}
+				badStore := ""
+				nOK := 0
+				for _, pa := range w.Walk(mf, args, nil) {
+					if pa.Outcome != "return" || len(pa.Results) != 1 || errNilness(pa, pa.Results[0]) != 1 {
+						continue
+					}
+					stored := false
+					for _, e := range pa.Events {
+						if e.Kind != "store" || len(e.Args) != 2 {
+							continue
+						}
+						// the result itself (or a field of it), not something rebuilt from parts of it
+						v := termDeepVal(e.Args[1])
+						if i := strings.LastIndex(v, ")#0"); i > 0 && strings.HasPrefix(v, calleeName(fn)+"(") && !strings.ContainsAny(v[i+3:], "(), ") {
+							stored = true
+						}
+					}
+					if os.Getenv("UHLINT_DEBUG") == "AD0" {
+						fmt.Fprintf(os.Stderr, "AD0 %s:%s stored=%v [%s]\n", role, m, stored, pa.State.Describe())
+						for _, e := range pa.Events {
+							fmt.Fprintf(os.Stderr, "    %s\n", cut(e.String(), 200))
+						}
+					}
+					if !stored {
+						badStore = m + " reports success without storing the address " + rs.Parser + " returned under [" + cut(pa.State.Describe(), 200) + "]"
+					} else {
+						nOK++
+					}
+				}
+				r.Check(badStore == "" && nOK > 0, "AD0", role+":"+m+":stores", p.Pos(mf.Pos()), fmt.Sprintf("%d successful paths store the parsed address", nOK), badStore)
+			}
 		}
 	}
 }
